@@ -402,6 +402,9 @@ func (g *G) body(depth, n int) []*ast.Stmt {
 			v := r.Pick("n", "n", "m", "b", "s", "q")
 			op := r.Pick("set", "set", "set", "add", "sub", "mul", "div", "mod")
 			want := map[string]string{"n": "num", "m": "num", "b": "bool", "s": "str", "q": ""}[v]
+			if v == "s" {
+				op = r.Pick("set", "add", "add", "add", "mul") // strings are mostly built by appending
+			}
 			if r.Intn(8) == 0 {
 				want = ""
 			}
